@@ -21,4 +21,23 @@ for k in spec["kernels"]:
         out[k["module"] + "." + k["name"]] = vals
     except Exception as e:  # noqa
         out[k["module"] + "." + k["name"]] = "IMPORT:" + type(e).__name__ + ":" + str(e)[:80]
+# the special-function implementations themselves (not translated: index arithmetic, integer powers, complex results)
+try:
+    from yadism.coefficient_functions.special import li2
+    from yadism.coefficient_functions.special.nielsen import nielsen
+    for n in range(1, 5):
+        for p in range(1, 5):
+            if n + p > 5:
+                continue
+            vals = []
+            for x in spec["special_points"]:
+                try:
+                    v = nielsen(n, p, x)
+                    vals.append([float(np.real(v)), float(np.imag(v))])
+                except Exception as e:  # noqa
+                    vals.append("EXC:" + type(e).__name__)
+            out["special.nielsen(%d,%d)" % (n, p)] = vals
+    out["special.li2"] = [float(li2(x)) for x in spec["special_points"] + [1.5, 3.0, -4.0]]
+except Exception as e:  # noqa
+    out["special"] = "IMPORT:" + type(e).__name__ + ":" + str(e)[:80]
 json.dump(out, sys.stdout)
